@@ -363,6 +363,13 @@ pub fn get_unix_timestamp_ms() -> u64 {
 /// This timestamp is ensured to be accurate taking into account the
 /// resolution lost when converting the timestamp.
 pub fn get_datacake_timestamp() -> Duration {
+    // verif hook: a wall clock injected for the current thread also answers callers which
+    // read the clock without being a particular node's clock.
+    #[cfg(datacake_verif)]
+    if let Some(injected) = crate::verif::wall(u8::MAX) {
+        return injected;
+    }
+
     let duration = SystemTime::now().duration_since(UNIX_EPOCH).unwrap();
 
     let (seconds, fractional) = duration_to_parts(duration - DATACAKE_EPOCH);
